@@ -248,7 +248,8 @@ func widePrograms() []*gen.Node {
 var specials = []string{"#FASTLY recv", "# falco-ignore-next-line", "// falco-ignore-start", "// falco-ignore-end", "# @scope: recv,deliver", "/* falco-ignore */"}
 
 var commentKinds = []struct{ name, line, block string }{
-	{"sharp", "# c%d.", ""}, {"slash", "// c%d.", ""}, {"block", "/* c%d. */", "/* c%d. */"},
+	// the line comments carry text that would open a block comment or a long string if it were code
+	{"sharp", "# c%d. /* {\"x", ""}, {"slash", "// c%d. {ID\"y", ""}, {"block", "/* c%d. */", "/* c%d. */"},
 }
 
 func commentText(kind int, id int) string { return fmt.Sprintf(commentKinds[kind].line, id) }
